@@ -21,16 +21,23 @@ A_SCRIPTS_THOROUGH = A_SCRIPTS_QUICK + [
 ]
 
 
-def a_world(n, script, restricted):
+def a_world(n, script, restricted, fast=False):
+    """fast: the last process's default answer is timestep 0.25, so that
+    it is polled (and may be quiet) at instants where the others do not
+    fit before the end of a call."""
     processes, topology = {}, {}
+    # the unrestricted (C03) menu also offers a timestep shorter than any
+    # lag a run_for boundary can leave (0.25 < 0.5)
+    menu = list(TS_MENU) if restricted else list(TS_MENU) + [0.25]
     for i in range(n):
         pid = f'p{i}'
         processes[pid] = sched.probe_spec(
-            pid, 'oracle', 'oracle', ts_menu=list(TS_MENU))
+            pid, 'oracle', 'oracle',
+            ts_menu=[0.25, 1, 0.5, 2] if fast and i == n - 1 else menu)
         topology[pid] = {'priv': (f's{i}',), 'shared': ('shared',)}
     return {'processes': processes, 'topology': topology,
             'script': list(script), 'family': 'A', 'n': n,
-            'restricted': restricted}
+            'restricted': restricted, 'fast': fast}
 
 
 def gated_world(ts_gated, ts_toggler, pattern, script):
@@ -65,6 +72,8 @@ def a_jobs(ctx, restricted=True):
         for n, bound in ((1, 2), (2, 2)):
             for sc in A_SCRIPTS_QUICK:
                 jobs.append(('A', n, sc, bound, restricted))
+        for sc in A_SCRIPTS_QUICK[:2]:
+            jobs.append(('A', 2, sc, 1, restricted, 'fast'))
         pats = list(itertools.product([True, False], repeat=3))
         for tg, tt in itertools.product([0.5, 1, 2], [0.5, 1]):
             for pat in pats:
@@ -75,6 +84,8 @@ def a_jobs(ctx, restricted=True):
         for n, bound in ((1, 3), (2, 3)):
             for sc in A_SCRIPTS_THOROUGH:
                 jobs.append(('A', n, sc, bound, restricted))
+        for sc in A_SCRIPTS_THOROUGH:
+            jobs.append(('A', 2, sc, 2, restricted, 'fast'))
         pats = list(itertools.product([True, False], repeat=4))
         for tg, tt in itertools.product([0.5, 0.75, 1, 2, 3],
                                         [0.5, 1, 1.25]):
@@ -87,8 +98,11 @@ def a_jobs(ctx, restricted=True):
         if job[0] != 'A':
             out.append(job)
             continue
+        fast = len(job) > 5
+        job = job[:5]
         _, n, sc, bound, restricted = job
-        spec = a_world(n, sc, restricted)
+        spec = a_world(n, sc, restricted, fast)
+        job = job + (fast,)
         oracle = Oracle([], menu_filter=k1_filter if restricted else None)
         worlds.execute(spec, oracle=oracle, guard_factory=sched.lasso_guard)
         out.append(job + ((), False))
@@ -153,8 +167,8 @@ def run_one_a(spec, prefix, acc, monitors):
 
 def run_a(job, acc, monitors):
     if job[0] == 'A':
-        _, n, script, bound, restricted, prefix, expand = job
-        spec = a_world(n, script, restricted)
+        _, n, script, bound, restricted, fast, prefix, expand = job
+        spec = a_world(n, script, restricted, fast)
         cnt = explore(lambda pre: run_one_a(spec, pre, acc, monitors), bound,
                       prefix=list(prefix), expand_root=expand)
         acc.counters['A_executions'] += cnt
@@ -169,6 +183,7 @@ def run_a(job, acc, monitors):
 
 def replay(case, acc, monitors):
     spec = {k: v for k, v in case.items() if k != 'choices'}
+    spec.setdefault('restricted', False)
     run_one_a(spec, case.get('choices', []), acc, monitors)
 
 
@@ -328,13 +343,36 @@ def mon_c02_adaptive(spec, ex, p):
     return out
 
 
-def k1_triggers(p):
-    """Polls whose answer ends before the current clock (K1 trigger)."""
+def k1_triggers(p, ex=None):
+    """Polls that form the trigger of known finding K1: the process is
+    behind the clock BECAUSE ITS PREVIOUS POLL WAS DEFERRED (it answered a
+    timestep that did not fit before the end of that call and was not
+    invoked; the clock then moved on, within the same call after another
+    process's batch or across the call boundary), and it now answers a
+    timestep that ends before the clock.
+    A process that lags for any other reason is not K1."""
+    ends = {}
+    if ex is not None:
+        for (i, call, start, got) in ex.calls:
+            if call[0] in ('run_for', 'update'):
+                ends[i] = start + call[1]
     trig = []
     for pid, polls in p.polls.items():
-        for q in polls:
-            if q['front'] is not None and q['t'] is not None and \
-                    q['front'] + q['ts'] < q['t']:
+        inv_idx = sorted(r['idx'] for r in p.invokes.get(pid, []))
+        cond_idx = sorted(c['idx'] for c in p.conds.get(pid, []))
+        for j, q in enumerate(polls):
+            if q['front'] is None or q['t'] is None or \
+                    not q['front'] + q['ts'] < q['t']:
+                continue
+            if j == 0:
+                continue
+            prev = polls[j - 1]
+            deferred = (
+                prev['front'] == q['front']
+                and prev['call'] in ends
+                and prev['front'] + prev['ts'] > ends[prev['call']]
+                and not any(prev['idx'] < x < q['idx'] for x in cond_idx))
+            if deferred:
                 trig.append(q)
     return sorted(trig, key=lambda q: q['idx'])
 
@@ -343,7 +381,7 @@ def mon_c03_adaptive(spec, ex, p):
     """Clock invariants; executions containing the K1 trigger are judged up
     to the trigger, and the listed symptom is reported under K1's
     fingerprint."""
-    trig = k1_triggers(p)
+    trig = k1_triggers(p, ex)
     if not trig:
         return sched.mon_c03_clock(spec, ex, p)
     out = []
